@@ -240,7 +240,7 @@ fn spec(ap: &Airports) -> impl Strategy<Value = Spec> {
 
 fn nasty() -> impl Strategy<Value = String> {
     let frags = vec![
-        "", "foo", ":", ":abc", ":99999", ":0", ":-1", "udp://host", "udp://", "tcp://", "ws://", "ws://h", "rtlsdr:", "rtlsdr://", "http://default", "192.168.0.1:10003", "192.168.0.1:10003@LFPG", "localhost:10003", "tcp://h:p", "tcp://h:70000", "tcp://:1", "tcp://[::1", "tcp://h:1@(", "tcp://h:1@[", "tcp://h:1@a{1000000000}", "tcp://h:1@(a{1000}){1000}", "tcp://h:1@\\", "tcp://h:1@*", "tcp://h:1@+", "tcp://h:1@?", "tcp://h:1@@", "tcp://h:1??", "tcp://h:1@LFPG@LFBO", "tcp://h:1@43.3,", "tcp://h:1@,", "tcp://h:1@1,2,3", "tcp://h:1@nan,nan", "tcp://h:1@-12.5", "tcp://h:1@43", "-12.5", "43", "1e3", ".5", "tcp://h:1@1,2,3,4", "tcp://h:1@ 1 , 2 ", "tcp://h:1@,1", "tcp://h:1@1;2", "tcp://h:1@inf,-inf", "tcp://h:1@1e400,1", "@", "?", "@LFPG", "/", "//", "///:4003", "/:", "/:x", "tcp:///:", "tcp:///:x", "tcp:///:99999", "udp:///x", "ws:///", "\u{0}", "tcp://\u{e9}:1", "tcp://h:1@\u{1f6e9}", "%", "%zz", "tcp://h:1@%28", "a b", "\t", "[", "(", "(?P<x>", "tcp://user:pw@host:1", "tcp://host:1#frag",
+        "", "foo", ":", ":abc", ":99999", ":0", ":-1", "udp://host", "udp://", "tcp://", "ws://", "ws://h", "rtlsdr:", "rtlsdr://", "http://default", "192.168.0.1:10003", "192.168.0.1:10003@LFPG", "localhost:10003", "tcp://h:p", "tcp://h:70000", "tcp://:1", "tcp://[::1", "tcp://h:1@(", "tcp://h:1@[", "tcp://h:1@a{1000000000}", "tcp://h:1@(a{1000}){1000}", "tcp://h:1@\\", "tcp://h:1@*", "tcp://h:1@+", "tcp://h:1@?", "tcp://h:1@@", "tcp://h:1??", "tcp://h:1@LFPG@LFBO", "tcp://h:1@43.3,", "tcp://h:1@,", "tcp://h:1@1,2,3", "tcp://h:1@nan,nan", "tcp://h:1@-12.5", "tcp://h:1@43", "-12.5", "43", "1e3", ".5", "tcp://h:1@1,2,3,4", "tcp://h:1@ 1 , 2 ", "tcp://h:1@,1", "tcp://h:1@1;2", "tcp://h:1@inf,-inf", "tcp://h:1@1e400,1", "@", "?", "@LFPG", "/", "//", "///:4003", "/:", "/:x", "tcp:///:", "tcp:///:x", "tcp:///:99999", "udp:///x", "ws:///", "\u{0}", "tcp://\u{e9}:1", "tcp://h:1@\u{1f6e9}", "%", "%zz", "tcp://h:1@%28", "tcp://h:1@%FF", "tcp://h:1@%ff", "tcp://h:1@%C3", "tcp://h:1@LF%80BO", "tcp://h:1@%e9cole", "tcp://h:1@%00", "tcp://h:1@%C3%28", "tcp://h:1@%F0%9F", "tcp://h:1@%ED%A0%80", "tcp://h:1@%c3%a9", "tcp://h:1@43.6%2C1.37", "tcp://h:1?%FF", "tcp://%FF:1", "tcp://h%00:1", "ws://h:1/%FF@LFBO", "ws://h:1/p?%80", "udp://h:1@%FE%FF", "%FF", "%80", "@%FF", "?%FF", "LF%42O", "43.6%2C1.37", "a b", "\t", "[", "(", "(?P<x>", "tcp://user:pw@host:1", "tcp://host:1#frag",
     ];
     let frag = proptest::sample::select(frags.into_iter().map(|s| s.to_string()).collect::<Vec<_>>());
     prop_oneof![
